@@ -364,6 +364,115 @@ theorem add_split_inv : ∀ {rs : Ranges} (h e : Nat), Inv rs → Inv (addApply 
     have := removeFirst_inv e (add_inv h hi)
     exact this
 
+/-! ### the cache loop of processHeaders -/
+
+theorem heights_cons (r : Rng) (rest : Ranges) : heights (r :: rest) = r.hs ++ heights rest := by simp [heights]
+
+theorem clean_length_le : ∀ (rs : Ranges), (clean rs).length ≤ rs.length
+  | [] => Nat.le_refl _
+  | r :: rest => by
+    unfold clean; split
+    · exact Nat.le_trans (clean_length_le rest) (Nat.le_succ _)
+    · exact Nat.le_refl _
+
+theorem clean_head_ne : ∀ {rs : Ranges} {r : Rng} {rest : Ranges}, clean rs = r :: rest → r.hs ≠ []
+  | [], _, _, h => by simp [clean] at h
+  | q :: qs, r, rest, h => by
+    unfold clean at h
+    split at h
+    · exact clean_head_ne h
+    · rename_i hne
+      have : q = r := by injection h
+      subst this; simpa using hne
+
+theorem clean_of_ne {r : Rng} {rest : Ranges} (h : r.hs ≠ []) : clean (r :: rest) = r :: rest := by
+  unfold clean; simp [h]
+
+/-- everything cached lies above `to` once the first (non-empty) range starts above it -/
+theorem all_above {r : Rng} {rest : Ranges} {to : Nat} (hi : Inv (r :: rest)) (hne : r.hs ≠ []) (hg : get r to = []) :
+    ∀ x ∈ heights (r :: rest), x > to := by
+  have wr : r.WF := hi.wf r (by simp)
+  rw [get_spec to wr] at hg
+  have hr : ∀ x ∈ r.hs, x > to := by
+    intro x hx
+    have := List.filter_eq_nil_iff.1 hg x hx
+    simp at this; omega
+  intro x hx
+  rw [heights_cons] at hx
+  rcases List.mem_append.1 hx with h | h
+  · exact hr x h
+  · obtain ⟨y, hy⟩ := List.exists_mem_of_ne_nil _ hne
+    obtain ⟨b, hb, hxb⟩ := List.mem_flatMap.1 h
+    have := (List.pairwise_cons.1 hi.sep).1 b hb y hy x hxb
+    have := hr y hy; omega
+
+theorem filter_all_gt {xs : List Nat} {to : Nat} (h : ∀ x ∈ xs, x > to) :
+    xs.filter (· ≤ to) = [] ∧ xs.filter (· > to) = xs := by
+  constructor
+  · apply List.filter_eq_nil_iff.2; intro x hx; have := h x hx; simp; omega
+  · apply List.filter_eq_self.2; intro x hx; have := h x hx; simpa using this
+
+theorem drain_spec (to : Nat) : ∀ (fuel : Nat) (rs : Ranges), Inv rs → (clean rs).length ≤ fuel →
+    (drain fuel rs to).1 = (heights rs).filter (· ≤ to) ∧
+    heights (drain fuel rs to).2 = (heights rs).filter (· > to) ∧ Inv (drain fuel rs to).2
+  | 0, rs, hi, hl => by
+    have hc : clean rs = [] := List.eq_nil_of_length_eq_zero (Nat.le_zero.1 hl)
+    have hh : heights rs = [] := by rw [← heights_clean rs, hc]; rfl
+    simp only [drain, hh, List.filter_nil, hc, true_and]
+    exact ⟨rfl, clean_inv hi |> (hc ▸ ·)⟩
+  | f + 1, rs, hi, hl => by
+    have hic := clean_inv hi
+    cases hc : clean rs with
+    | nil =>
+      have hh : heights rs = [] := by rw [← heights_clean rs, hc]; rfl
+      simp only [drain, drainStep, hc, hh, List.filter_nil, true_and]
+      exact ⟨rfl, hc ▸ hic⟩
+    | cons r rest =>
+      rw [hc] at hic hl
+      have hne := clean_head_ne hc
+      have wr : r.WF := hic.wf r (by simp)
+      have hhs : heights rs = r.hs ++ heights rest := by rw [← heights_clean rs, hc, heights_cons]
+      by_cases hg : (get r to).isEmpty
+      · -- nothing up to `to` in the first range: the loop breaks
+        have hg' : get r to = [] := by simpa using hg
+        have hall := all_above hic hne hg'
+        have hf := filter_all_gt hall
+        rw [heights_cons] at hf
+        simp only [drain, drainStep, hc, hg, if_true, hhs]
+        exact ⟨hf.1.symm, by rw [heights_cons]; exact hf.2.symm, hic⟩
+      · have hstep : drainStep rs to = some (get r to, remove r to :: rest) := by
+          simp only [drainStep, hc, hg, Bool.false_eq_true, if_false]
+        have hi' : Inv (remove r to :: rest) := removeFirst_inv to hic
+        have hget := get_spec to wr
+        have hrem := remove_spec to wr
+        by_cases hem : (remove r to).hs = []
+        · -- the range is used up: the next `First()` drops it and the loop goes on with the rest
+          have hcl : clean (remove r to :: rest) = clean rest := by simp only [clean, hem, List.isEmpty_nil, if_true]
+          have hl' : (clean (remove r to :: rest)).length ≤ f := by
+            rw [hcl]; have := clean_length_le rest; simp at hl; omega
+          obtain ⟨ih1, ih2, ih3⟩ := drain_spec to f (remove r to :: rest) hi' hl'
+          have hh' : heights (remove r to :: rest) = heights rest := by rw [heights_cons, hem]; rfl
+          simp only [drain, hstep]
+          refine ⟨?_, ?_, ih3⟩
+          · rw [ih1, hh', hhs, List.filter_append, hget]
+          · rw [ih2, hh', hhs, List.filter_append, ← hrem, hem]; rfl
+        · -- something above `to` is left in the range: the next iteration finds nothing up to `to` and breaks
+          have hcl : clean (remove r to :: rest) = remove r to :: rest := clean_of_ne hem
+          have hnext : get (remove r to) to = [] := by
+            rw [get_spec to (remove_wf to wr), hrem, List.filter_filter]
+            apply List.filter_eq_nil_iff.2; intro x _; simp
+          have hall := all_above hi' hem hnext
+          have hrest : ∀ x ∈ heights rest, x > to := fun x hx => hall x (by rw [heights_cons]; simp [hx])
+          have hfr := filter_all_gt hrest
+          have hd : drain f (remove r to :: rest) to = ([], remove r to :: rest) := by
+            cases f with
+            | zero => simp [drain, hcl]
+            | succ f' => simp [drain, drainStep, hcl, hnext]
+          simp only [drain, hstep, hd, List.append_nil]
+          refine ⟨?_, ?_, hi'⟩
+          · rw [hhs, List.filter_append, hfr.1, List.append_nil, hget]
+          · rw [heights_cons, hhs, List.filter_append, hfr.2, hrem]
+
 theorem prune_inv {rs : Ranges} (e : Nat) (hi : Inv rs) : Inv (prune rs e) := by
   have hboth : rs.Pairwise (fun a b => Sep a b ∧ EP a b) := hi.sep.and hi.ep
   refine ⟨?_, ?_, ?_⟩
